@@ -145,6 +145,18 @@ impl DataProg {
         (d.program(), u.program())
     }
 
+    /// the literal variable names the program denotes (one per unrolled declaration)
+    pub fn expected_names(&self) -> Vec<String> {
+        let mut d = Texts::default();
+        let mut u = Texts::default();
+        for (k, p) in self.pieces.iter().enumerate() {
+            p.emit(k, &mut d, &mut u);
+        }
+        let mut names: Vec<String> = u.decls.iter().filter_map(|l| l.split(' ').next().map(|s| s.to_string())).collect();
+        names.push("zz".to_string());
+        names
+    }
+
     pub fn labels(&self) -> Vec<String> {
         let mut v = vec![];
         for p in &self.pieces {
